@@ -54,12 +54,13 @@ type Report struct {
 	Explanation string
 	Undecided   []string
 	Exhaustive  bool
+	blocked     map[string]string
 	// minimum number of obligations per rule (vacuity guard)
 	Min map[string]int
 	// rule descriptions
 	Rules    map[string]string
 	Controls map[string]any
-	seen  map[string]bool
+	seen     map[string]bool
 }
 
 func newReport(prop string) *Report {
@@ -69,6 +70,20 @@ func newReport(prop string) *Report {
 func (r *Report) rule(id, desc string, min int) {
 	r.Rules[id] = desc
 	r.Min[id] = min
+}
+
+// blockedBy records that the listed rules were not evaluated because the
+// prerequisite they rely on is itself reported as a violation in this run; the
+// vacuity guard then does not add a second, derived report for them.
+func (r *Report) blockedBy(why string, rules ...string) {
+	if r.blocked == nil {
+		r.blocked = map[string]string{}
+	}
+	for _, id := range rules {
+		if id != "" {
+			r.blocked[id] = why
+		}
+	}
 }
 
 func (r *Report) add(rule, key, pos, status, detail string) {
@@ -557,11 +572,20 @@ func runProperty(c *Ctx, pd *propDef, known knownFile, reviewed map[string]revie
 		perRule[o.Rule][o.Status]++
 		perRule[o.Rule]["total"]++
 	}
+	anyViol := false
+	for _, o := range r.Obs {
+		if o.Status == stViol {
+			anyViol = true
+		}
+	}
 	for rule, min := range r.Min {
 		if perRule[rule] == nil {
 			perRule[rule] = map[string]int{}
 		}
 		n := perRule[rule]["total"] - perRule[rule][stInfo]
+		if _, b := r.blocked[rule]; b && anyViol {
+			continue
+		}
 		if n < min {
 			r.viol(rule, "vacuity", "", fmt.Sprintf("rule matched %d constructs, the reviewed minimum is %d: the code the rule is anchored in has changed shape and the rule would pass vacuously", n, min))
 			perRule[rule][stViol]++
